@@ -62,6 +62,10 @@ class PROP(E2E):
         st = m.get("stage", 0)
         if "PANIC" in (c.impl or ""):
             return "panic"
+        if st == "own":
+            t = c.line.split(" ")
+            want = "%s %s:%s" % (t[2], t[1], t[2])
+            return None if c.impl == want else "into_owned changed the request: %s, want %s" % ((c.impl or "")[:80], want[:80])
         if st == "direct":
             obs = self.direct_obs(c)
             if len(obs) != len(m["ops"]):
